@@ -61,6 +61,9 @@ func (i *icache) generation() uint64 {
 // since gen was read: v may have been fetched before that change.
 func (i *icache) setIfUnchanged(k string, v Account, gen uint64) {
 	cpy := v
+	// the key may point into a request buffer that is reused after the
+	// request: a map key must not change under the map
+	k = strings.Clone(k)
 	i.Lock()
 	if i.gen == gen {
 		i.items[k] = item{
@@ -73,6 +76,9 @@ func (i *icache) setIfUnchanged(k string, v Account, gen uint64) {
 
 func (i *icache) set(k string, v Account) {
 	cpy := v
+	// the key may point into a request buffer that is reused after the
+	// request: a map key must not change under the map
+	k = strings.Clone(k)
 	i.Lock()
 	i.items[k] = item{
 		exp:   time.Now().Add(i.expire),
